@@ -5,6 +5,9 @@ import FitProps.C08
 import FitProps.C13
 import FitProps.C14
 import FitProps.C16
+import FitProps.LinksApi
+import FitProps.DecoderApiOverrunLemmas
+import FitProps.DecoderApiDefaultLemmas
 /-!
 # C03 — Decoding arbitrary bytes never panics, hangs or fakes success
 
@@ -13,7 +16,7 @@ that the driver runs against the real code (families `decapi`, `dechist`). They 
 option combination, every factory table and every sequence of API calls.
 
 PROPERTY THEOREMS (audited by ./check): C03_no_panic, C03_no_hang, C03_sticky, C03_error_sticks, C03_sticky_run,
-C03_no_fake_success, C03_no_fake_success_clean, C03_ctx_cancel, C03_ctx_no_fake_success, C03_raw_total, C03_readbuffer_total, C03_listener_total, C03_consts
+C03_no_fake_success, C03_last_record_starts_inside, C03_no_fake_success_msgs, C03_no_fake_success_clean, C03_no_panic_ops_any_reader, C03_default_config_total, C03_ctx_cancel, C03_ctx_no_fake_success, C03_raw_total, C03_readbuffer_total, C03_listener_total, C03_consts
 -/
 namespace Fit.C03
 open Fit.DecApi
@@ -94,6 +97,59 @@ theorem C03_no_fake_success (o : Opts) (bytes : List Nat) (hb : IsBytes bytes) (
     ∃ hdr recs c0 c1, bytes = hdr ++ recs ++ [c0, c1] ++ s'.rest ∧ HdrOK o.chk 0 hdr f.hdr ∧
       f.hdr.dataSize ≤ recs.length ∧ f.crc = c0 + 256 * c1 ∧ (o.chk = true → Fit.Crc.write 0 recs = f.crc) :=
   (decode_fresh_accepted o bytes hb hf hlen s' f evs h).split
+
+/-- **No fake success, the bound on the overrun.** The record bytes `recs` of `C03_no_fake_success` may be longer than the
+declared data size — the code lets the LAST record run past it (KF-C07-4 is about what that does to the next sequence). This
+theorem bounds it: `recs = recs₀ ++ last` where `last` is exactly ONE record — what a single `decodeMessage` consumed, from the
+decoder state `sl` reached by reading `recs₀` — and that record STARTS strictly inside the declared data size:
+`|recs₀| < dataSize ≤ |recs₀| + |last|`. So the overrun `|recs| − dataSize` is less than the length of one record (at most
+1 + 255·255 + 255·255 bytes for a data record with 255 fields and 255 developer fields of 255 bytes; 1537 for a definition),
+at least one record was read, and the two CRC bytes follow that record immediately. -/
+theorem C03_last_record_starts_inside (o : Opts) (bytes : List Nat) (hb : IsBytes bytes) (hf : FacOK o.fac) (hlen : bytes.length < 4294967296)
+    (s' : St) (f : Fit) (evs : List Event) (h : stepDecode (St.fresh o bytes) = (s', .fit f, evs)) :
+    ∃ hdr recs₀ last c0 c1 sl sf ev, bytes = hdr ++ recs₀ ++ last ++ [c0, c1] ++ s'.rest ∧ HdrOK o.chk 0 hdr f.hdr ∧
+      recs₀.length < f.hdr.dataSize ∧ f.hdr.dataSize ≤ recs₀.length + last.length ∧
+      sl.rest = last ++ sf.rest ∧ sf.rest = [c0, c1] ++ s'.rest ∧ decodeMessage sl = .ok (sf, ev) :=
+  decode_fresh_last o bytes hb hf hlen s' f evs h
+
+/-- **No fake success, the messages.** `C03_no_fake_success` constrains the framing (header, a byte string `recs` covering
+the declared data size, CRC); this theorem says what the RETURNED MESSAGES are. If `Decode` on a new decoder returns a FIT,
+then the reader-client model (D) (`DecProg.decodeLoop`, one sequence: header, `for d.cur < dataSize { decodeMessage }`,
+CRC — its message events carry, for every record it reads, the header byte, the definition in force and exactly the bytes
+`ReadN` delivered for each field and developer field) ends its run on the same bytes WITHOUT error, and the returned FIT —
+header, every message with every decoded VALUE, developer fields, expanded components, CRC — together with the listener
+calls made (reserved byte of definitions zeroed: (D) does not observe it) is `apiOf` of (D)'s events: the decoder's own
+value-level functions applied to the bytes those record events carry and to nothing else of the stream. So no message of a
+returned FIT comes from anywhere but a record that was read in full inside the loop over the declared data size, in
+order, and none of those records is missing. Hypotheses beyond `C03_no_fake_success`: the factory is in the common domain
+of the two models (`facBtOK`: valid base types; `facFdOK`: the three fields of field_description as in the profile —
+`Link_stdFactory_ok`: met by the regenerated standard factory). How far the last record may run past the declared data size:
+`C03_last_record_starts_inside`. -/
+theorem C03_no_fake_success_msgs (o : Opts) (bytes : List Nat) (hb : IsBytes bytes) (hf : FacOK o.fac) (hlen : bytes.length < 4294967296)
+    (hbt : Fit.Link.facBtOK o.fac = true) (hfd : Fit.Link.facFdOK o.fac = true)
+    (s' : St) (f : Fit) (evs : List Event) (h : stepDecode (St.fresh o bytes) = (s', .fit f, evs)) :
+    (Fit.ReadBuffer.runExact (Fit.DecProg.decodeLoop o.chk 1 true []) bytes).status = none ∧
+    Fit.Link.apiOf o (Fit.ReadBuffer.runExact (Fit.DecProg.decodeLoop o.chk 1 true []) bytes) = [(.fit f, evs.map Fit.Link.normEvent)] ∧
+    ∃ hdr recs c0 c1, bytes = hdr ++ recs ++ [c0, c1] ++ s'.rest ∧ HdrOK o.chk 0 hdr f.hdr ∧
+      f.hdr.dataSize ≤ recs.length ∧ f.crc = c0 + 256 * c1 ∧ (o.chk = true → Fit.Crc.write 0 recs = f.crc) := by
+  have hl := Fit.Links.Link_decode_is_apiOf o bytes hb hlen hf hbt hfd s' f evs h
+  refine ⟨?_, hl, C03_no_fake_success o bytes hb hf hlen s' f evs h⟩
+  -- a run of (D) that ended with an error would put an error entry last in `apiOf`
+  cases hs : (Fit.ReadBuffer.runExact (Fit.DecProg.decodeLoop o.chk 1 true []) bytes).status with
+  | none => rfl
+  | some e =>
+    exfalso
+    unfold Fit.Link.apiOf at hl
+    rw [hs] at hl
+    simp only at hl
+    have := congrArg List.getLast? hl
+    simp at this
+
+/-- non-vacuity: the one-record file `P` under the empty factory meets the hypotheses; its FIT has one message -/
+example : Fit.Link.facBtOK ([] : Factory) = true ∧
+    (Fit.Link.apiOf {} (Fit.ReadBuffer.runExact (Fit.DecProg.decodeLoop true 1 true [])
+      [14, 32, 154, 82, 11, 0, 0, 0, 46, 70, 73, 84, 30, 8, 64, 0, 0, 0, 0, 1, 0, 1, 0, 0, 4, 84, 47])).map
+      (fun p => match p.1 with | .fit f => f.msgs.length | _ => 99) = [1] := by decide +kernel
 
 /-- the same from every state at a sequence boundary (per-sequence state and look-ups as new — C07 shows that every
 boundary a history reaches is such a state) -/
@@ -224,6 +280,58 @@ theorem C03_readbuffer_total :
   · intro chk fuel b s size hb
     exact Fit.DecProg.runRB_no_panic _ (Fit.C08.C08_request_bound chk fuel true []) (Fit.DecProg.keeps_decodeLoop chk fuel true [])
       _ _ (Fit.ReadBuffer.reset_inv b s size) hb
+
+/-- **The decoder's DEFAULT configuration** (`decoder.New(r)`: standard factory, component expansion on) as
+`FitModel/DecoderApiDefault.lean` models it — the decoder-API model with the regenerated standard factory and expansion off,
+every decoded message then expanded by C05's model of `expandComponents` over the real component / sub-field graph: for every
+byte stream, option set and history of calls, no call ends in a panic or a hang. (Every result is, call by call, (C)'s result
+with the FIT's messages expanded; the expansion itself is a total function — `Fit.Expand.decodeTail`, whose recursion over
+the real graph is bounded by `C05_profile_depth`; its bit store, accumulator and scale / offset arithmetic are C05's and
+C12's subject.) -/
+theorem C03_default_config_total (o : Opts) (bytes : List Nat) (ops : List Op) (hb : IsBytes bytes)
+    (hops : ∀ o' b, Op.reset o' b ∈ ops → IsBytes b) :
+    ∀ y ∈ Default.run o bytes ops, ∀ evs, y ≠ some (.other .panic, evs) ∧ y ≠ some (.other .hang, evs) := by
+  intro y hy evs
+  unfold Default.run at hy
+  simp only at hy
+  rw [List.zip_map_right] at hy
+  have hy' : y ∈ Default.walk o {} (((ops.map (Default.innerOp o)).zip
+      (run (Api.fresh (Default.inner o) bytes) (ops.map (Default.innerOp o)))).map fun t => (t.1, some t.2)) := hy
+  obtain ⟨t, ht, msgs, evs', rfl⟩ := Default.walk_out o _ _ y hy'
+  have hmem : t.2 ∈ run (Api.fresh (Default.inner o) bytes) (ops.map (Default.innerOp o)) := (List.of_mem_zip ht).2
+  have hops' : ∀ op ∈ ops.map (Default.innerOp o), OpOK op := by
+    intro op hop
+    obtain ⟨op0, h0, rfl⟩ := List.mem_map.mp hop
+    cases op0 with
+    | reset o' b => exact ⟨hops o' b h0, Default.facOK_std⟩
+    | _ => trivial
+  have h1 := C03_no_panic (Default.inner o) bytes _ hb Default.facOK_std hops' t.2 hmem
+  have h2 := C03_no_hang (Default.inner o) bytes _ hb Default.facOK_std hops' t.2 hmem
+  constructor
+  · intro h
+    cases hout : t.2.1 <;> simp [hout, Default.xoutOf] at h
+    exact h1 hout
+  · intro h
+    cases hout : t.2.1 <;> simp [hout, Default.xoutOf] at h
+    exact h2 hout
+
+/-- **Every entry point over ANY reader.** The decoder object driven through any list of calls — `Decode`,
+`DecodeWithContext` (context live / cancelled before / cancelled during the call), `PeekFileHeader`, `PeekFileId`, `Discard`,
+`Next`, `CheckIntegrity` — as a client of the read buffer (`FitModel/DecHist.lean`), over a reader that fragments the stream
+anyhow and fails anywhere, with any buffer size, from any state a previous `Reset` left the buffer in: no call makes `ReadN`
+panic (every request is at most `reservedbuf` bytes, and the first failed request is the last request: the error is
+sticky). Termination: the program is a finite tree of requests interpreted by structural recursion. -/
+theorem C03_no_panic_ops_any_reader (chk : Bool) (fuelCi : Nat) (ops : List Fit.DecHist.Op) (b : Fit.ReadBuffer.RB)
+    (s : Fit.ReadBuffer.Sched) (size : Int) (hb : Fit.ReadBuffer.IsBytes (Fit.ReadBuffer.bytesOf s)) :
+    Fit.ReadBuffer.runRB (Fit.DecHist.history chk fuelCi ops) (b.reset s size) ≠ .panic :=
+  (Fit.DecHist.s_history chk fuelCi ops).no_panic _ _ (Fit.ReadBuffer.reset_inv b s size) hb
+
+/-- non-vacuity: a reader that delivers 20 bytes of a file and then fails with its own error 7, calls PeekFileId, Discard,
+Decode: the peek returns the failure, the others return it again -/
+example : (match Fit.ReadBuffer.runRB (Fit.DecHist.history true 3 [.peekFileId, .discard, .decode])
+      (Fit.ReadBuffer.RB.fresh [⟨Fit.C08.kfBytes.take 20, none⟩, ⟨[], some (.custom 7)⟩] 0) with
+    | .done o => o.res | .panic => []) =
+    [.err (.dec (.io (.custom 7))), .err (.dec (.io (.custom 7))), .err (.dec (.io (.custom 7)))] := by decide +kernel
 
 /-- **Feeding a decoded stream to the typed-file listener is total.** For every byte stream, option set, factory table
 and history of API calls, let `msgs` be the messages the decoder hands to its message listeners (as `proto.Message`s:
